@@ -474,7 +474,15 @@ func (self *StateStore) ClearAll() error {
 		self.store.NewBatch() // reset the batch
 		return err
 	}
-	return self.store.BatchCommit()
+	if err := self.store.BatchCommit(); err != nil {
+		return err
+	}
+	// the persisted merkle trees are gone: reload the in-memory trees (and the hash file
+	// position) that were read from the store when it was opened
+	if self.merkleHashStore != nil {
+		self.merkleHashStore.Close()
+	}
+	return self.init(0)
 }
 
 //Close state store
